@@ -210,6 +210,11 @@ Theorem C05_send_after_close : forall c s, st s = CLOSED ->
 Proof. exact send_after_close. Qed.
 Print Assumptions C05_send_after_close.
 
+Theorem C05_send_prepared_not_open : forall c s, st s <> OPEN ->
+  step c s ESendPrepared = (s, [(now s, Raised ExDisconnected)]).
+Proof. exact send_prepared_not_open. Qed.
+Print Assumptions C05_send_prepared_not_open.
+
 Theorem C05_streaming_api_not_open : forall c s, st s <> OPEN ->
   step c s EBeginMessage = (s, []) /\ step c s ESendFrame = (s, []) /\ step c s EEndMessage = (s, []).
 Proof. exact streaming_not_open. Qed.
